@@ -138,7 +138,7 @@ def check_case(case):
                             "seed": case["seed"]})
 
 
-PARTS = {"sim": {"check": check_case, "strategy": cases, "budget": {"quick": 1500, "thorough": 40000}}}
+PARTS = {"sim": {"check": check_case, "strategy": cases, "budget": {"quick": 3000, "thorough": 40000}}}
 
 
 def vacuity(merged, tier):
